@@ -140,7 +140,7 @@ func c29EncoderSubject(format string, stream []ev.Event, cfg *configuration.Conf
 		enc := c27NewEncoder(format, cfg)
 		enc.PrepareToEncode(w)
 		// at the event level a failure IS a panic out of the On* call: that is the report
-		if idx, pv := ev.Replay(rules.NewRules(enc, cfg), stream); idx >= 0 {
+		if idx, pv := replayAuto(rules.NewRules(enc, cfg), stream); idx >= 0 {
 			err = fmt.Errorf("event %d: %v", idx, pv)
 		}
 		return
